@@ -316,6 +316,21 @@ def run_large(rec, tier, seed):
                 r = _ref_pairs(tab, na, sym)
                 if st != "ok" or not numpy.array_equal(y.numpy().astype(numpy.int64), r):
                     rec.violation("pairwise_annotations:wrong:large", dict(case, symmetric=sym))
+    # narrow output dtypes: every entry of the true matrix fits the requested dtype (same-annotation pair counts in its upper half)
+    for reps in ((18, 3, 12), (23, 1, 16), (12, 12, 2), (182, 2, 5)):
+        tab = [(0, 0)] * reps[0] + [(0, 1)] * reps[1] + [(1, 0)] * reps[2] + [(1, 2)]
+        X = torch.tensor(tab, dtype=torch.int64)
+        for sym in (True, False):
+            r = _ref_pairs(tab, 3, sym)
+            for dt, mx in ((torch.uint8, 255), (torch.int8, 127), (torch.int16, 32767), (torch.int32, 2 ** 31 - 1), (torch.int64, 2 ** 62),
+                           (torch.float16, 2048), (torch.float32, 2 ** 24)):
+                if r.max() > mx:
+                    continue
+                st, y = call(pairwise_annotations, X, dtype=dt, symmetric=sym)
+                rec.case(1, 1)
+                if st != "ok" or y.dtype != dt or not numpy.array_equal(y.double().numpy(), r.astype(numpy.float64)):
+                    rec.violation("pairwise_annotations:wrong:narrow_dtype", dict(fn="pairwise_annotations", repeats=list(reps), symmetric=sym, dtype=str(dt)),
+                                  expected=r.tolist(), observed=y.tolist() if st == "ok" else y)
     for (n, ne, na, md) in ((150, 4, 6, 30), (300, 2, 3, 100), (120, 1, 2, 300)):
         tab = []
         for _ in range(n):
